@@ -13,8 +13,7 @@ use super::*;
 use crate::clock::LogicalClock;
 use crate::InternalKeyKind;
 
-pub(crate) const MAXN: usize = 4;
-pub(crate) const MAXS: usize = 3;
+// array sizes are const parameters: N versions x S snapshots (4 x 3 in the quick tier, 6 x 4 in thorough)
 
 #[derive(Debug)]
 struct FixedClock(u64);
@@ -25,7 +24,7 @@ impl LogicalClock for FixedClock {
 }
 
 #[derive(Clone, Copy)]
-pub(crate) struct Scenario {
+pub(crate) struct Scenario<const MAXN: usize, const MAXS: usize> {
 	n: usize,
 	seq: [u64; MAXN],
 	kind: [u8; MAXN],
@@ -47,7 +46,7 @@ fn kind_of(k: u8) -> InternalKeyKind {
 	}
 }
 
-impl Scenario {
+impl<const MAXN: usize, const MAXS: usize> Scenario<MAXN, MAXS> {
 	/// N versions of ONE user key in strictly decreasing sequence order (what the merge iterator
 	/// yields for one key), kinds the public API can write, a sorted duplicate-free snapshot list
 	/// (what SnapshotTracker::get_all_snapshots returns).
@@ -168,7 +167,7 @@ impl Scenario {
 // ------------------------------------------------------------------ back ends
 
 #[cfg(not(verif_replay))]
-fn run(sc: &Scenario) -> [bool; MAXN] {
+fn run<const MAXN: usize, const MAXS: usize>(sc: &Scenario<MAXN, MAXS>) -> [bool; MAXN] {
 	use crate::verif_models::{OutRec, VersArr};
 	let cmp: Arc<dyn Comparator> = Arc::new(crate::comparator::BytewiseComparator {});
 	let mut snaps: Vec<u64> = Vec::with_capacity(MAXS);
@@ -258,7 +257,7 @@ impl LSMIterator for VecIter {
 /// Native replay back end: the REAL CompactionIterator::new(..).advance() loop (sort, dedup,
 /// accumulate, process, drain) over an in-memory child iterator, neighbours before and after.
 #[cfg(verif_replay)]
-fn run(sc: &Scenario) -> [bool; MAXN] {
+fn run<const MAXN: usize, const MAXS: usize>(sc: &Scenario<MAXN, MAXS>) -> [bool; MAXN] {
 	let mut items = Vec::new();
 	items.push((InternalKey::new(b"a".to_vec(), 1, InternalKeyKind::Set, 0).encode(), b"x".to_vec()));
 	for i in 0..sc.n {
@@ -307,8 +306,8 @@ fn run(sc: &Scenario) -> [bool; MAXN] {
 
 /// C01-O1 / C06-O1: every registered snapshot horizon and the latest horizon read the same thing
 /// before and after compaction, for every version history of a key.
-fn views_preserved(maxn: usize, maxs: usize) {
-	let sc = Scenario::any(maxn, maxs, 14);
+fn views_preserved<const MAXN: usize, const MAXS: usize>(maxn: usize, maxs: usize) {
+	let sc = Scenario::<MAXN, MAXS>::any(maxn, maxs, 14);
 	let kept = run(&sc);
 	// latest view (C06: physical arrangement never changes answers; deleted keys stay deleted)
 	sc.check_view(u64::MAX, &kept);
@@ -338,19 +337,25 @@ fn views_preserved(maxn: usize, maxs: usize) {
 
 #[kani::proof]
 #[kani::unwind(6)]
-fn c01_compaction_keeps_every_view_n3_s2() {
-	views_preserved(3, 2);
+fn c01_compaction_keeps_every_view_n4_s3() {
+	views_preserved::<4, 3>(4, 3);
 }
 
 #[kani::proof]
-#[kani::unwind(6)]
-fn c01_compaction_keeps_every_view_n4_s3() {
-	views_preserved(4, 3);
+#[kani::unwind(8)]
+fn c01_compaction_keeps_every_view_n6_s4() {
+	views_preserved::<6, 4>(6, 4);
+}
+
+#[kani::proof]
+#[kani::unwind(10)]
+fn c01_compaction_keeps_every_view_n8_s5() {
+	views_preserved::<8, 5>(8, 5);
 }
 
 /// C10-O1: with versioning enabled a version disappears only with a licence.
-fn history_retained(maxn: usize, maxs: usize) {
-	let sc = Scenario::any(maxn, maxs, 14);
+fn history_retained<const MAXN: usize, const MAXS: usize>(maxn: usize, maxs: usize) {
+	let sc = Scenario::<MAXN, MAXS>::any(maxn, maxs, 14);
 	kani::assume(sc.versioning);
 	// timestamps are taken from the clock at commit: never in the future
 	let mut i = 0;
@@ -419,21 +424,27 @@ fn history_retained(maxn: usize, maxs: usize) {
 
 #[kani::proof]
 #[kani::unwind(6)]
-fn c10_retention_never_loses_live_version_n3_s1() {
-	history_retained(3, 1);
+fn c10_retention_never_loses_live_version_n4_s3() {
+	history_retained::<4, 3>(4, 3);
 }
 
 #[kani::proof]
-#[kani::unwind(6)]
-fn c10_retention_never_loses_live_version_n4_s2() {
-	history_retained(4, 2);
+#[kani::unwind(8)]
+fn c10_retention_never_loses_live_version_n6_s4() {
+	history_retained::<6, 4>(6, 4);
+}
+
+#[kani::proof]
+#[kani::unwind(10)]
+fn c10_retention_never_loses_live_version_n8_s5() {
+	history_retained::<8, 5>(8, 5);
 }
 
 /// C10-O2: an erased version never outlives its barrier: if a version with a hard delete or a
 /// replace above it is kept, some barrier above it is kept too (the history readers apply the
 /// barrier at read time; once every barrier above a kept version is gone it shows up in history again).
-fn barrier_never_outlived(maxn: usize, maxs: usize) {
-	let sc = Scenario::any(maxn, maxs, 14);
+fn barrier_never_outlived<const MAXN: usize, const MAXS: usize>(maxn: usize, maxs: usize) {
+	let sc = Scenario::<MAXN, MAXS>::any(maxn, maxs, 14);
 	kani::assume(sc.versioning);
 	let mut t = 0;
 	while t < MAXN {
@@ -462,7 +473,7 @@ fn barrier_never_outlived(maxn: usize, maxs: usize) {
 			// signature of listed finding F10r (excluded only while it is listed): version i is kept
 			// because a registered snapshot selects it, and every barrier above it is a REPLACE that
 			// left a finite retention window
-			let f10r = cfg!(verif_kf_f10r) && sc.selected_by_a_snapshot(i) && sc.only_expired_replace_barriers_above(i);
+			let f10r = crate::verif_cfg::KF_F10R && sc.selected_by_a_snapshot(i) && sc.only_expired_replace_barriers_above(i);
 			if barrier_above && !f10r {
 				resurfaced_candidate = true;
 				assert!(kept_barrier_above, "a version erased by a hard delete / replace survives after every barrier above it was dropped");
@@ -476,14 +487,20 @@ fn barrier_never_outlived(maxn: usize, maxs: usize) {
 
 #[kani::proof]
 #[kani::unwind(6)]
-fn c10_barrier_never_outlived_n3_s1() {
-	barrier_never_outlived(3, 1);
+fn c10_barrier_never_outlived_n4_s3() {
+	barrier_never_outlived::<4, 3>(4, 3);
 }
 
 #[kani::proof]
-#[kani::unwind(6)]
-fn c10_barrier_never_outlived_n4_s2() {
-	barrier_never_outlived(4, 2);
+#[kani::unwind(8)]
+fn c10_barrier_never_outlived_n6_s4() {
+	barrier_never_outlived::<6, 4>(6, 4);
+}
+
+#[kani::proof]
+#[kani::unwind(10)]
+fn c10_barrier_never_outlived_n8_s5() {
+	barrier_never_outlived::<8, 5>(8, 5);
 }
 
 /// Witness of known finding F10r (only run while it is listed): [Set, Replace (expired), Set] with a
@@ -492,7 +509,7 @@ fn c10_barrier_never_outlived_n4_s2() {
 #[kani::proof]
 #[kani::unwind(6)]
 fn c10_witness_f10r_expired_replace_barrier() {
-	let sc = Scenario::any(3, 1, 14);
+	let sc = Scenario::<4, 3>::any(3, 1, 14);
 	kani::assume(sc.versioning && sc.n == 3 && sc.ns == 1 && sc.retention > 0);
 	kani::assume(sc.kind[0] == 0 && sc.kind[1] == 3 && sc.kind[2] == 0);
 	kani::assume(sc.ts[0] <= sc.now);
